@@ -239,6 +239,12 @@ theorem C20_accepted_masks_are_what_C01_needs [LawfulThresholds K] (hn : p.nbloc
     (∀ a b : Fin p.d, p.blk a.val = p.blk b.val → p.elim a.val b.val = true → p.equalEigs a.val b.val = false) :=
   masks_ok_of_setup hn hfd hne hok
 
+/-- **C20 → C01** … and so, for a well-formed input with masks of the caller, acceptance by the set-up phase puts the problem under C01: `U†·H·U = H̃` -/
+theorem C20_accepted_problem_meets_C01 [LawfulThresholds K] (hin : p.InputFacts) (hn : p.nblocks ≠ 1) (l : List (Nat × Array Bool)) (hfd : p.fd = .dict l)
+    (hne : l ≠ []) (hok : Validate.setup p.configOf = .ok) (h2 : (2 : K) ≠ 0) :
+    p.sr "U†" * p.sr "H" * p.sr "U" = p.sr "H_tilde" :=
+  Problem.C01 (accepted_of_setup hin hn hfd hne hok) h2
+
 -- the dict-mask witness is accepted by the model of the set-up phase; a mask that selects a pair of equal levels (`wd` with both levels of its first block at 2) is not
 example : Validate.setup wd.configOf = .ok := by decide +kernel
 example : Validate.setup ({ wd with terms := [([0], ⟨4, #[2,0,0,0, 0,2,0,0, 0,0,5,0, 0,0,0,5]⟩)] } : Problem ℚ).configOf =
